@@ -10,6 +10,7 @@ import (
 	metav1 "k8s.io/apimachinery/pkg/apis/meta/v1"
 	"k8s.io/apimachinery/pkg/runtime"
 	"k8s.io/client-go/kubernetes/fake"
+	k8stesting "k8s.io/client-go/testing"
 
 	"kvassverif/internal/core"
 	"kvassverif/internal/sc"
@@ -27,6 +28,7 @@ type k8sStep struct {
 	A     string `json:"a"`     // ready | notready | updating
 	B     string `json:"b"`     // absent (only as a whole) | ready | notready | updating
 	Shift int    `json:"shift"` // seconds that pass before this cycle
+	NoAPI bool   `json:"listFails,omitempty"` // the API server does not answer the StatefulSet listing in this cycle
 }
 
 func mkSet(name string, state string) *appsv1.StatefulSet {
@@ -78,6 +80,13 @@ func runK8sLifeInner(steps []k8sStep, withB bool, bName string, bGap bool) ([]bo
 	}
 	cli := fake.NewSimpleClientset(objs...)
 	rm := kk.NewReplicasManager(cli, ns, "kvass=shards", 8080, false, sc.Quiet)
+	listFails := false
+	cli.PrependReactor("list", "statefulsets", func(k8stesting.Action) (bool, runtime.Object, error) {
+		if listFails {
+			return true, nil, fmt.Errorf("the server is currently unable to handle the request (get statefulsets.apps)")
+		}
+		return false, nil, nil
+	})
 	var out []bool
 	for _, st := range steps {
 		for _, x := range []struct{ name, state string }{{"prom-a", st.A}, {bName, st.B}} {
@@ -94,8 +103,14 @@ func runK8sLifeInner(steps []k8sStep, withB bool, bName string, bGap bool) ([]bo
 			}
 		}
 		rm.VerifShiftNotReadyTimers(time.Duration(st.Shift) * time.Second)
+		listFails = st.NoAPI
 		mgrs, err := rm.Replicas()
+		listFails = false
 		if err != nil {
+			if st.NoAPI {
+				out = append(out, false) // nothing is coordinated in a cycle whose listing failed
+				continue
+			}
 			return nil, err
 		}
 		has := false
@@ -139,7 +154,7 @@ func runK8sLifeCase(w *core.WorkerCtx, k int, prop string) *core.CaseResult {
 		if r.Intn(3) == 0 {
 			aState = r.PickS("ready", "notready", "notready", "updating", "updating-ready=updated", "updating-all-ready")
 		}
-		steps = append(steps, k8sStep{A: aState, B: r.PickS("ready", "notready", "updating", "updating"), Shift: r.PickI(0, 0, 45, 70, 130)})
+		steps = append(steps, k8sStep{A: aState, B: r.PickS("ready", "notready", "updating", "updating"), Shift: r.PickI(0, 0, 45, 70, 130), NoAPI: prop == "C18" && r.Intn(5) == 0})
 	}
 	// B's name sorts before or after A's
 	bName := r.PickS("prom-0b", "prom-b")
